@@ -664,6 +664,13 @@ func checkC15(p *Prog, res *Result, tier string) {
 	}
 	// ---- R5: the oracle's error is preserved by the lock operations ----
 	checkOracleErrorPreserved(p, r, res, "C15-R5")
+	// .. and the adapters themselves report a failed oracle read as an error: a fallback value of another kind (the wall
+	// clock instead of the cluster's timestamp) seeds one leader far above what every later leader starts from (C11-R11)
+	for _, o := range p.subResult("C11", tier).Obls {
+		if o.Rule == "C11-R11" && strings.Contains(o.Construct, "GetTimestampOracle") {
+			res.add("C15-R5", o.Rule+" "+o.Construct, o.Status, o.Pos, o.Detail)
+		}
+	}
 
 	// ---- R6: the engine's oracle is fresh (C11-R6) ----
 	{
@@ -1039,7 +1046,7 @@ func checkLeaderStart(p *Prog, r *Roles, res *Result, rule string) {
 					})
 				})
 			}
-			badRet := ""
+			badRet, staleRet := "", ""
 			if hc, idx, ok := extractOf(argForSigParam(setCur, 0)); ok {
 				if h := hc.Common().StaticCallee(); h != nil && h.Blocks != nil && errorResultIndex(h.Signature) >= 0 {
 					ei := errorResultIndex(h.Signature)
@@ -1051,10 +1058,24 @@ func checkLeaderStart(p *Prog, r *Roles, res *Result, rule string) {
 						if !parsed(ret.Results[idx]) {
 							badRet = p.pos(ret.Pos())
 						}
+						// .. from the description as it is now: the Describe() call is made in this invocation, before
+						// the return (a copy kept from an earlier call - a cache - may predate the node's first look at
+						// the lock and carry version 0)
+						fresh := false
+						for _, c := range callsIn(h) {
+							if cc, ok := c.(*ssa.Call); ok && c.Common().IsInvoke() && c.Common().Method.Name() == "Describe" && instrDominates(cc, ret) {
+								fresh = true
+							}
+						}
+						if !fresh {
+							staleRet = p.pos(ret.Pos())
+						}
 					}
 				}
 			}
-			if okProv && badRet != "" {
+			if okProv && badRet == "" && staleRet != "" {
+				res.bad(rule, construct, staleRet, "the helper that parses the lock's description can answer without having asked the lock in this call (a remembered answer): a node that wins the lock right after an early look at it - before its first poll, when the description still says version 0 - seeds its counters with that stale version and hands out revisions the store already contains")
+			} else if okProv && badRet != "" {
 				res.bad(rule, construct, badRet, "the helper that parses the lock's description also returns successfully with a version that is not parsed from it (a constant): a node that becomes leader on that path seeds its counters with that value and hands out revisions the store already contains")
 			} else if okProv {
 				res.ok(rule, construct, p.pos(setCur.Pos()), "strconv.ParseUint of a part of resourcelock.Describe()")
